@@ -365,4 +365,309 @@ theorem noKills_reverseInPlace (a n : Nat) : NoKills (reverseInPlace a n) := by
   intro i _ b j h
   exact h
 
+/-! ## extension round: `callAt`, `zipCall2`, `sinkAt`, `freshRange` -/
+
+theorem ok_callAt {inp : Input} {rv : Bool} {a i : Nat} {d : Dest} (hrv : rv = true → ¬ IsLvCr (inp.cat a))
+    (hi : i < inp.size a) (hd : DestOk inp d) : Ok inp (callAt rv a i d) := by
+  unfold callAt
+  cases rv
+  · simp only [Bool.false_eq_true, if_false]; exact (ok_derive inp a i 1 d).2 ⟨hi, hd⟩
+  · simp only [if_true]; exact (ok_xfer_move inp a i d).2 ⟨hrv rfl, hi, hd⟩
+
+theorem callAt_footprint {rv : Bool} {a i : Nat} {d : Dest} {b j : Nat}
+    (h : (callAt rv a i d).kills b j ∨ (callAt rv a i d).uses b j) : a = b ∧ i = j := by
+  unfold callAt at h
+  cases rv <;> simp [Instr.kills, Instr.uses] at h <;> exact h
+
+theorem rv_not_lvcr {inp : Input} {a : Nat} : inp.isRv a = true → ¬ IsLvCr (inp.cat a) := not_lvcr_of_rv
+
+theorem false_not_lvcr {inp : Input} {a : Nat} : false = true → ¬ IsLvCr (inp.cat a) := fun h => by cases h
+
+theorem mem_zipCall2 {rv0 rv1 : Bool} {n : Nat} {d : Dest} {x : Instr} (hx : x ∈ zipCall2 rv0 rv1 n d) :
+    ∃ i, i < n ∧ (x = callAt rv0 0 i d ∨ x = callAt rv1 1 i d) := by
+  simp only [zipCall2, List.mem_flatMap, List.mem_range, List.mem_cons, List.not_mem_nil, or_false] at hx
+  obtain ⟨i, hi, h⟩ := hx
+  exact ⟨i, hi, h⟩
+
+theorem safe_zipCall2 {inp : Input} {rv0 rv1 : Bool} {n : Nat} {d : Dest}
+    (h0 : rv0 = true → ¬ IsLvCr (inp.cat 0)) (h1 : rv1 = true → ¬ IsLvCr (inp.cat 1))
+    (hn0 : n ≤ inp.size 0) (hn1 : n ≤ inp.size 1) (hd : DestOk inp d) : Safe inp (zipCall2 rv0 rv1 n d) := by
+  refine ⟨?_, ?_⟩
+  · intro x hx
+    obtain ⟨i, hi, rfl | rfl⟩ := mem_zipCall2 hx
+    · exact ok_callAt h0 (by omega) hd
+    · exact ok_callAt h1 (by omega) hd
+  · unfold Clean zipCall2
+    rw [List.pairwise_flatMap]
+    refine ⟨?_, ?_⟩
+    · intro i _
+      rw [List.pairwise_pair]
+      intro b j hk hu
+      have e1 := callAt_footprint (Or.inl hk)
+      have e2 := callAt_footprint (Or.inr hu)
+      omega
+    · refine List.Pairwise.imp ?_ (@List.pairwise_lt_range n)
+      intro i j hij x hx y hy b k hk hu
+      simp only [List.mem_cons, List.not_mem_nil, or_false] at hx hy
+      rcases hx with rfl | rfl <;> rcases hy with rfl | rfl <;>
+        (have e1 := callAt_footprint (Or.inl hk); have e2 := callAt_footprint (Or.inr hu); omega)
+
+/-- `zipCall2` with the value categories of the first two arguments -/
+theorem safe_zipCall2_rv {inp : Input} {n : Nat} {d : Dest} (hn0 : n ≤ inp.size 0) (hn1 : n ≤ inp.size 1) (hd : DestOk inp d) :
+    Safe inp (zipCall2 (inp.isRv 0) (inp.isRv 1) n d) :=
+  safe_zipCall2 rv_not_lvcr rv_not_lvcr hn0 hn1 hd
+
+theorem ok_sinkAt {inp : Input} {a i : Nat} (hi : i < inp.size a) : Ok inp (sinkAt (inp.isRv a) a i) := by
+  unfold sinkAt
+  cases h : inp.isRv a
+  · simp only [Bool.false_eq_true, if_false]; exact (ok_read inp a i).2 hi
+  · simp only [if_true]; exact (ok_xfer_move inp a i .drop).2 ⟨not_lvcr_of_rv h, hi, destOk_drop inp⟩
+
+theorem sinkAt_footprint {rv : Bool} {a i : Nat} {b j : Nat}
+    (h : (sinkAt rv a i).kills b j ∨ (sinkAt rv a i).uses b j) : a = b ∧ i = j := by
+  unfold sinkAt at h
+  cases rv <;> simp [Instr.kills, Instr.uses] at h <;> exact h
+
+theorem safe_freshRange {inp : Input} (n : Nat) (d : Dest) (hd : DestOk inp d) : Safe inp (freshRange n d) :=
+  safe_fresh_range n d hd
+
+theorem noKills_freshRange (n : Nat) (d : Dest) : NoKills (freshRange n d) := noKills_fresh_range n d
+
+theorem safe_pair {inp : Input} {x y : Instr} (hx : Ok inp x) (hy : Ok inp y) (hc : NoUseAfter x y) : Safe inp [x, y] :=
+  safe_cons hx (safe_singleton hy) (fun z hz => by simp only [List.mem_singleton] at hz; subst hz; exact hc)
+
+theorem safe_fresh_any (inp : Input) (v : Nat) (d : Dest) (hv : 100 ≤ v) (hd : DestOk inp d) : Safe inp [.fresh v d] :=
+  safe_singleton ((ok_fresh inp v d).2 ⟨hv, hd⟩)
+
+theorem onArg_singleton {a : Nat} {x : Instr} (h : ∀ b j, (x.kills b j ∨ x.uses b j) → b = a) : OnArg a [x] := by
+  intro y hy b j hb
+  simp only [List.mem_singleton] at hy
+  subst hy
+  exact h b j hb
+
+theorem anyCat_of_lvcr {inp : Input} {a : Nat} (h : catIn inp a [.lv, .cr] = true) : catIn inp a anyCat = true := by
+  obtain ⟨c, hc, hm⟩ := (catIn_iff inp a _).1 h
+  refine (catIn_iff inp a anyCat).2 ⟨c, hc, ?_⟩
+  simp at hm
+  rcases hm with rfl | rfl <;> simp [anyCat]
+
+/-! ## extension round 2: in-place erasure and overwriting -/
+
+theorem safe_iterErase {inp : Input} {a : Nat} {mask : List Nat} (hc : ¬ IsLvCr (inp.cat a)) (hn : mask.length ≤ inp.size a) :
+    Safe inp (iterErase a mask) := by
+  refine ⟨?_, ?_⟩
+  · intro x hx
+    simp only [iterErase, List.mem_flatMap, List.mem_range, List.mem_cons] at hx
+    obtain ⟨i, hi, rfl | hx⟩ := hx
+    · exact (ok_read inp a i).2 (by omega)
+    · split at hx
+      · simp only [List.mem_singleton] at hx
+        subst hx
+        exact (ok_pop inp a i .drop).2 ⟨hc, by omega, destOk_drop inp⟩
+      · exact absurd hx List.not_mem_nil
+  · unfold Clean iterErase
+    rw [List.pairwise_flatMap]
+    refine ⟨?_, ?_⟩
+    · intro i _
+      rw [List.pairwise_cons]
+      refine ⟨fun y _ b j hk _ => hk, ?_⟩
+      split
+      · exact List.pairwise_singleton _ _
+      · exact List.Pairwise.nil
+    · refine List.Pairwise.imp ?_ (@List.pairwise_lt_range mask.length)
+      intro i j hij x hx y hy b k hk hu
+      have hxk : a = b ∧ i = k := by
+        simp only [List.mem_cons] at hx
+        rcases hx with rfl | hx
+        · exact hk.elim
+        · split at hx
+          · simp only [List.mem_singleton] at hx; subst hx; exact hk
+          · exact absurd hx List.not_mem_nil
+      have hyu : a = b ∧ j = k := by
+        simp only [List.mem_cons] at hy
+        rcases hy with rfl | hy
+        · exact hu
+        · split at hy
+          · simp only [List.mem_singleton] at hy; subst hy; exact hu
+          · exact absurd hy List.not_mem_nil
+      omega
+
+theorem safe_eraseRange {inp : Input} {a lo hi : Nat} (hc : ¬ IsLvCr (inp.cat a)) (hn : hi ≤ inp.size a) :
+    Safe inp (eraseRange a lo hi) := by
+  refine ⟨?_, ?_⟩
+  · intro x hx
+    simp only [eraseRange, List.mem_map, List.mem_range] at hx
+    obtain ⟨j, hj, rfl⟩ := hx
+    exact (ok_pop inp a _ .drop).2 ⟨hc, by omega, destOk_drop inp⟩
+  · apply clean_map_range
+    rintro i j hij _ b k ⟨rfl, rfl⟩ ⟨_, h⟩
+    omega
+
+theorem safe_fillAll {inp : Input} {a n : Nat} (hc : ¬ IsLvCr (inp.cat a)) (ha : a < inp.args.length) (hn : n ≤ inp.size a) :
+    Safe inp (fillAll a n) := by
+  refine ⟨?_, ?_⟩
+  · intro x hx
+    simp only [fillAll, List.mem_flatMap, List.mem_range, List.mem_cons, List.not_mem_nil, or_false] at hx
+    obtain ⟨i, hi, rfl | rfl⟩ := hx
+    · exact (ok_pop inp a i .drop).2 ⟨hc, by omega, destOk_drop inp⟩
+    · exact (ok_fresh inp _ _).2 ⟨by omega, (destOk_arg inp a).2 ⟨hc, ha⟩⟩
+  · unfold Clean fillAll
+    rw [List.pairwise_flatMap]
+    refine ⟨?_, ?_⟩
+    · intro i _
+      rw [List.pairwise_pair]
+      intro b j _ hu
+      exact hu
+    · refine List.Pairwise.imp ?_ (@List.pairwise_lt_range n)
+      intro i j hij x hx y hy b k hk hu
+      simp only [List.mem_cons, List.not_mem_nil, or_false] at hx hy
+      rcases hx with rfl | rfl
+      · rcases hy with rfl | rfl
+        · simp only [Instr.kills, Instr.uses] at hk hu; omega
+        · exact hu
+      · exact hk
+
+theorem safe_copies {inp : Input} {a i k : Nat} (hc : IsLvCr (inp.cat a)) (hi : i < inp.size a) :
+    Safe inp ((List.range k).map fun _ => Instr.xfer a i .copy .res) := by
+  refine ⟨?_, ?_⟩
+  · intro x hx
+    simp only [List.mem_map, List.mem_range] at hx
+    obtain ⟨_, _, rfl⟩ := hx
+    exact (ok_xfer_copy inp a i .res).2 ⟨hc, hi, destOk_res inp⟩
+  · apply clean_of_no_kills
+    intro x hx b j hk
+    simp only [List.mem_map, List.mem_range] at hx
+    obtain ⟨_, _, rfl⟩ := hx
+    exact hk
+
+theorem lvcr_of_in {inp : Input} {a : Nat} {cs : List Cat} (hc : catIn inp a cs = true)
+    (hcs : ∀ c ∈ cs, c = .lv ∨ c = .cr) : IsLvCr (inp.cat a) := by
+  obtain ⟨c, hc, hm⟩ := (catIn_iff inp a cs).1 hc
+  rw [hc]
+  rcases hcs c hm with rfl | rfl
+  · exact Or.inl rfl
+  · exact Or.inr rfl
+
+theorem lvcr_lvcr : ∀ c ∈ [Cat.lv, Cat.cr], c = .lv ∨ c = .cr := by simp
+theorem lvcr_cr : ∀ c ∈ [Cat.cr], c = .lv ∨ c = .cr := by simp
+
+theorem noKills_xferAll_copy' (a n : Nat) (d : Dest) : NoKills (xferAll a n .copy d) := noKills_xferAll_copy a n d
+
+/-- two arguments passed with the same value category -/
+theorem isRv_congr {inp : Input} {a b : Nat} (h : (inp.cat a == inp.cat b) = true) : inp.isRv a = inp.isRv b := by
+  simp only [beq_iff_eq] at h
+  simp [Input.isRv, h]
+
+/-! ## extension round 5: in-place compaction (`std::remove_if`, `std::unique`) -/
+
+theorem safe_pops {inp : Input} {a : Nat} {l : List Nat} (hc : ¬ IsLvCr (inp.cat a)) (hb : ∀ i ∈ l, i < inp.size a)
+    (hp : l.Pairwise (· < ·)) : Safe inp (l.map fun i => Instr.pop a i .drop) := by
+  refine ⟨?_, ?_⟩
+  · intro x hx
+    simp only [List.mem_map] at hx
+    obtain ⟨i, hi, rfl⟩ := hx
+    exact (ok_pop inp a i .drop).2 ⟨hc, hb i hi, destOk_drop inp⟩
+  · unfold Clean
+    rw [List.pairwise_map]
+    refine List.Pairwise.imp ?_ hp
+    rintro i j hij b k ⟨rfl, rfl⟩ ⟨_, h⟩
+    omega
+
+theorem safe_compact {inp : Input} {a : Nat} {mask : List Nat} (hc : ¬ IsLvCr (inp.cat a)) (hn : mask.length ≤ inp.size a) :
+    Safe inp (compact a mask) := by
+  unfold compact
+  split
+  · exact safe_readAll hn
+  · rename_i f hf
+    have hlt : f < mask.length := (List.findIdx?_eq_some_iff_findIdx_eq.1 hf).1
+    have hmid : Safe inp ((List.range (mask.length - (f + 1))).flatMap fun j =>
+        Instr.read a (f + 1 + j) :: (if mask[f + 1 + j]? = some 1 then [Instr.shift a (f + 1 + j)] else [])) := by
+      refine ⟨?_, ?_⟩
+      · intro x hx
+        simp only [List.mem_flatMap, List.mem_range, List.mem_cons] at hx
+        obtain ⟨j, hj, rfl | hx⟩ := hx
+        · exact (ok_read inp a _).2 (by omega)
+        · split at hx
+          · simp only [List.mem_singleton] at hx
+            subst hx
+            exact (ok_shift inp a _).2 ⟨hc, by omega⟩
+          · exact absurd hx List.not_mem_nil
+      · apply clean_of_no_kills
+        intro x hx b k hk
+        simp only [List.mem_flatMap, List.mem_range, List.mem_cons] at hx
+        obtain ⟨j, hj, rfl | hx⟩ := hx
+        · exact hk
+        · split at hx
+          · simp only [List.mem_singleton] at hx; subst hx; exact hk
+          · exact absurd hx List.not_mem_nil
+    have hmidk : NoKills ((List.range (mask.length - (f + 1))).flatMap fun j =>
+        Instr.read a (f + 1 + j) :: (if mask[f + 1 + j]? = some 1 then [Instr.shift a (f + 1 + j)] else [])) := by
+      intro x hx b k hk
+      simp only [List.mem_flatMap, List.mem_range, List.mem_cons] at hx
+      obtain ⟨j, hj, rfl | hx⟩ := hx
+      · exact hk
+      · split at hx
+        · simp only [List.mem_singleton] at hx; subst hx; exact hk
+        · exact absurd hx List.not_mem_nil
+    have hpops := safe_pops (inp := inp) (a := a) (l := (List.range mask.length).filter fun i => mask[i]? == some 0) hc
+      (fun i hi => by
+        have := (List.mem_filter.1 hi).1
+        have := List.mem_range.1 this
+        omega)
+      (List.Pairwise.filter _ (@List.pairwise_lt_range mask.length))
+    refine safe_append (safe_append (safe_readAll (by omega)) hmid (cross_of_noKills (noKills_readAll _ _))) hpops ?_
+    intro x hx y hy
+    rcases List.mem_append.1 hx with hx | hx
+    · exact cross_of_noKills (noKills_readAll _ _) x hx y hy
+    · exact cross_of_noKills hmidk x hx y hy
+
+theorem mem_iterEraseVec_block {a : Nat} {mask : List Nat} {i : Nat} {x : Instr}
+    (hx : x ∈ (Instr.read a i :: (if mask[i]? = some 0 then
+      Instr.pop a i .drop :: ((List.range (mask.length - (i + 1))).map fun j => Instr.shift a (i + 1 + j)) else []))) :
+    x = .read a i ∨ x = .pop a i .drop ∨ ∃ j, i < j ∧ j < mask.length ∧ x = .shift a j := by
+  simp only [List.mem_cons] at hx
+  rcases hx with rfl | hx
+  · exact Or.inl rfl
+  · split at hx
+    · simp only [List.mem_cons, List.mem_map, List.mem_range] at hx
+      rcases hx with rfl | ⟨j, hj, rfl⟩
+      · exact Or.inr (Or.inl rfl)
+      · exact Or.inr (Or.inr ⟨i + 1 + j, by omega, by omega, rfl⟩)
+    · exact absurd hx List.not_mem_nil
+
+theorem safe_iterEraseVec {inp : Input} {a : Nat} {mask : List Nat} (hc : ¬ IsLvCr (inp.cat a)) (hn : mask.length ≤ inp.size a) :
+    Safe inp (iterEraseVec a mask) := by
+  refine ⟨?_, ?_⟩
+  · intro x hx
+    simp only [iterEraseVec, List.mem_flatMap, List.mem_range] at hx
+    obtain ⟨i, hi, hx⟩ := hx
+    rcases mem_iterEraseVec_block hx with rfl | rfl | ⟨j, _, hj, rfl⟩
+    · exact (ok_read inp a i).2 (by omega)
+    · exact (ok_pop inp a i .drop).2 ⟨hc, by omega, destOk_drop inp⟩
+    · exact (ok_shift inp a j).2 ⟨hc, by omega⟩
+  · unfold Clean iterEraseVec
+    rw [List.pairwise_flatMap]
+    refine ⟨?_, ?_⟩
+    · intro i _
+      rw [List.pairwise_cons]
+      refine ⟨fun y _ b j hk _ => hk, ?_⟩
+      split
+      · rw [List.pairwise_cons]
+        refine ⟨?_, ?_⟩
+        · intro y hy b k hk hu
+          simp only [List.mem_map, List.mem_range] at hy
+          obtain ⟨j, _, rfl⟩ := hy
+          simp only [Instr.kills, Instr.uses] at hk hu
+          omega
+        · rw [List.pairwise_map]
+          exact List.Pairwise.imp (fun _ b k hk _ => hk) (@List.pairwise_lt_range _)
+      · exact List.Pairwise.nil
+    · refine List.Pairwise.imp ?_ (@List.pairwise_lt_range mask.length)
+      intro i i' hii x hx y hy b k hk hu
+      rcases mem_iterEraseVec_block hx with rfl | rfl | ⟨j, _, _, rfl⟩
+      · exact hk
+      · rcases mem_iterEraseVec_block hy with rfl | rfl | ⟨j', hj', _, rfl⟩ <;>
+          simp only [Instr.kills, Instr.uses] at hk hu <;> omega
+      · exact hk
+
 end Fcppt.C05
